@@ -33,6 +33,7 @@ type Obligation struct {
 	Bounded bool
 	ModelQ  []string // terms to evaluate in a model
 	sibling *Obligation
+	vc      *VC
 	Regioned   bool   // sibling of a known finding: the same obligation restricted to inputs outside the finding's region
 	Model      map[string]string
 	Replayed   bool
@@ -66,6 +67,7 @@ type retEdge struct {
 	cond string
 	st   *State
 	res  []SV
+	pos  token.Pos
 }
 
 type VC struct {
@@ -103,6 +105,7 @@ type VC struct {
 	implUsed map[string]bool
 	epochN  int
 	regions map[string]string
+	noFacts int // >0 while evaluating under a specification quantifier: emit no ground facts
 }
 
 type loopInfo struct {
@@ -386,7 +389,7 @@ func (vc *VC) oblige(kind, name string, props []string, guard, goal, text string
 		}
 	}
 	o := &Obligation{Name: vc.key + "/" + name, Kind: kind, Func: vc.key, Props: props, Prefix: len(vc.script),
-		Guard: guard, Goal: goal, Pos: vc.posStr(pos), Text: text}
+		Guard: guard, Goal: goal, Pos: vc.posStr(pos), Text: text, vc: vc}
 	vc.obls = append(vc.obls, o)
 	if rg, ok := vc.regions[o.Name]; ok {
 		sib := *o
